@@ -382,7 +382,7 @@ impl Command {
         }
 
         // Signature check for root
-        let threshold = signed_root
+        let root_role = signed_root
             .signed()
             .signed
             .roles
@@ -392,10 +392,16 @@ impl Command {
                 role: RoleType::Root,
                 threshold: 0,
                 actual: 0,
-            })?
-            .threshold
-            .get();
-        let signature_count = signed_root.signed().signatures.len();
+            })?;
+        let threshold = root_role.threshold.get();
+        // Only signatures by this root's own root keys count towards its threshold; signatures
+        // kept from an earlier cross-signing are made with keys of another root.
+        let signature_count = signed_root
+            .signed()
+            .signatures
+            .iter()
+            .filter(|sig| root_role.keyids.contains(&sig.keyid))
+            .count();
         if threshold > signature_count as u64 {
             // Return an error when the "ignore-threshold" flag wasn't set
             if !ignore_threshold {
